@@ -709,6 +709,15 @@ INVALID_BUT_PARSABLE = [
     ("duplicate-location", "struct V { @location(0) a: f32, @location(0) b: f32, }\n@vertex fn vs_main(v: V) -> @builtin(position) vec4<f32> { return vec4<f32>(v.a); }\n"),
     ("int-location-not-flat", "@fragment fn fs_main(@location(0) i: i32) { }\n"),
 ]
+VALID_ODD = [
+    ("pointer-only", "@group(0) @binding(0) var<uniform> a: vec4<f32>;\n@group(0) @binding(1) var<storage, read_write> b: array<u32, 4>;\n@fragment fn fs_main() -> @location(0) vec4<f32> { let p = &a; let q = &b[1]; return vec4<f32>(); }\n"),
+    ("uncalled-helper", "@group(0) @binding(0) var<uniform> a: vec4<f32>;\nfn never() -> vec4<f32> { return a; }\n@fragment fn fs_main() -> @location(0) vec4<f32> { return vec4<f32>(); }\n"),
+    ("after-return", "@group(0) @binding(0) var<storage, read_write> b: array<u32, 4>;\nfn h() { return; }\n@compute @workgroup_size(1) fn cs() { h(); if (false) { b[0] = 1u; } }\n"),
+    ("pointer-arg", "@group(0) @binding(0) var<storage, read_write> b: array<u32, 4>;\nvar<private> pv: u32;\nfn h(p: ptr<private, u32>) -> u32 { return *p; }\n@compute @workgroup_size(1) fn cs() { b[0] = h(&pv); }\n"),
+    ("shadowing", "@group(0) @binding(0) var<uniform> a: vec4<f32>;\n@fragment fn fs_main() -> @location(0) vec4<f32> { let a = vec4<f32>(1.0); return a; }\n"),
+    ("query-only", "@group(0) @binding(0) var<storage, read> r: array<vec4<f32>>;\n@group(0) @binding(1) var t: texture_2d<f32>;\n@vertex fn vs_main() -> @builtin(position) vec4<f32> { _ = arrayLength(&r); _ = textureDimensions(t); return vec4<f32>(); }\n"),
+    ("two-entries-one-helper", "@group(0) @binding(0) var<uniform> a: vec4<f32>;\nfn h() -> vec4<f32> { return a; }\n@vertex fn vs_main() -> @builtin(position) vec4<f32> { return h(); }\n@fragment fn fs_main() -> @location(0) vec4<f32> { return h(); }\n"),
+]
 INJECT = ["\u00e9", "\u200b", "\ufeff", "\x00", '"', "\\", "{", "}", "\U0001F600", "\r", "\u2028", ";", "@", "/*", "*/", "//", "<", ">", "\t", "\x7f", "\u0301"]
 SWAPS = [("f32", "i32"), ("u32", "f32"), ("vec4", "vec3"), ("var<uniform>", "var<storage>"), ("read_write", "read"), ("@vertex", "@fragment"),
          ("@fragment", "@compute @workgroup_size(1)"), ("@location(0)", ""), ("@builtin(position)", "@builtin(vertex_index)"), ("@group(0)", "@group(1)"),
@@ -767,6 +776,10 @@ def c17_cases(rng, seeds, n_per_seed, validate_sets=("none", "all")):
             for val in vs:
                 cases.append({"id": "c17-%06d" % k, "family": "corrupt-" + name.split("-")[0], "wgsl": v, "opts": opts(validate=val)})
                 k += 1
+    for name, src in VALID_ODD:
+        for val in ("none", "all", "nof64", "empty"):
+            cases.append({"id": "c17-%06d" % k, "family": "valid-odd-" + name, "wgsl": src, "opts": opts(validate=val)})
+            k += 1
     for name, src in INVALID_BUT_PARSABLE:
         for val in ("none", "all", "nof64", "empty"):
             cases.append({"id": "c17-%06d" % k, "family": "semantic-" + name, "wgsl": src, "opts": opts(validate=val)})
@@ -935,7 +948,7 @@ def override_shaders(rng, n):
         ids = rng.sample([0, 1, 7, 35, 1200, 65535], k)
         for j in range(k):
             ty = rng.choice(tys)
-            o = {"name": rng.choice(["scale", "count", "flag", "gamma", "\u03b1", "mode"]) + str(j), "ty": ty}
+            o = {"name": rng.choice(["scale", "count", "flag", "gamma", "\u03b1", "mode", "MAX_LIGHTS", "useShadows", "Gamma", "tone_MAP", "N"]) + str(j), "ty": ty}
             if rng.random() < 0.5:
                 o["default"] = rng.choice(defaults[ty])
             elif rng.random() < 0.25 and ovs and any(p["ty"] == ty and ty != "bool" for p in ovs):
@@ -949,6 +962,7 @@ def override_shaders(rng, n):
     for ovs in out:
         S = {"structs": [{"name": "VIn", "members": [{"name": "p", "ty": VEC4, "io": {"k": "loc", "n": 0}}]}], "globals": [], "consts": [], "overrides": ovs, "functions": [],
              "entries": [{"name": "vs_main", "stage": "vertex", "params": [{"k": "struct", "name": "v", "ty": "VIn"}], "result": {"k": "builtin", "b": "position"}, "body": [], "wg": []},
+                         {"name": "vs_fullscreen", "stage": "vertex", "params": [{"k": "builtin", "name": "vi", "b": "vertex_index"}], "result": {"k": "builtin", "b": "position"}, "body": [], "wg": []},
                          {"name": "fs_main", "stage": "fragment", "params": [], "result": {"k": "loc", "n": 0, "ty": VEC4}, "body": [], "wg": []},
                          {"name": "cs_main", "stage": "compute", "params": [], "body": [], "wg": ["1"]}]}
         shaders.append(S)
